@@ -573,9 +573,18 @@ impl BuiltInFunction {
                     format!("string bottom index `{top}` could not be used to index (usize)")
                 })?;
 
-                let start = top - bottom + 1;
+                if bottom > top
+                    || top > s.len()
+                    || !s.is_char_boundary(bottom)
+                    || !s.is_char_boundary(top)
+                {
+                    bail!(
+                        "delete range {bottom}..{top} is out of bounds for a string of length {}",
+                        s.len()
+                    )
+                }
 
-                let mut result = String::with_capacity(s.len() - start);
+                let mut result = String::with_capacity(s.len() - (top - bottom));
 
                 result.push_str(&s[..bottom]);
                 result.push_str(&s[top..]);
